@@ -59,8 +59,12 @@ Rel_C03(e) ==
    /\ e.op = "div"
    /\ \/ e.t = <<"fx", "fx">> /\ Finite(e.a[1]) /\ Finite(e.a[2])
       \/ e.t[1] = "fx" /\ IsIntTag(e.t[2]) /\ Finite(e.a[1])
+(* "No operand combination raises SIGFPE or otherwise terminates the process": every division event, whatever the raw
+   values of its operands (NaN sentinels and the lowest raw word included), must have returned *)
+NoTrap_C03(e) == (e.op = "div" /\ e.t[1] = "fx" /\ (e.t[2] = "fx" \/ IsIntTag(e.t[2]))) => e.trap = ""
 Ok_C03(e) ==
-   Rel_C03(e) =>
+   /\ NoTrap_C03(e)
+   /\ Rel_C03(e) =>
       /\ e.trap = ""                                                    \* never SIGFPE / abort
       /\ IF e.t = <<"fx", "fx">>
          THEN IF e.a[2] = Z0 THEN IsNaN(e.o)
